@@ -164,6 +164,7 @@ ValueCase ==
       [] c.op = "mimo" -> LET m == NewMIMOGene(c.node, c.inn, c.mut, c.en) IN
            [kind |-> "value", op |-> "mimo", args |-> [c EXCEPT !.probe = SortedSeq(c.probe)], gene |-> m,
             hit |-> HasIntersection(m, c.probe),
+            extra |-> ModuleExtraNodes(m, c.probe),
             \* the copy onto another control node (the outputs of the first as its inputs, no outputs) has THAT node's IO nodes
             copy |-> NewMIMOGeneCopy(m, [id |-> 10, ins |-> c.node.outs, outs |-> <<>>]),
             copy_hit |-> HasIntersection(NewMIMOGeneCopy(m, [id |-> 10, ins |-> c.node.outs, outs |-> <<>>]), c.probe)]
